@@ -138,7 +138,7 @@ Section Sound.
   Proof.
     intros I N.
     destruct T as [Hval [Hn [Hc [Hcall [Hbin [Hcmp [Hun [Hsub [Hlist Hunp]]]]]]]]].
-    apply expr_exprs_ind; simpl.
+    apply expr_exprs_ind; cbn [Infer.eval Infer.eval_all Infer.infer Infer.infer_all Infer.infer_each reads reads_all].
     - intros v _ v' s E R. inversion E; subst. eauto.
     - intros x Ro v s E R. eapply name_sound; eauto. intros; apply Ro; simpl; auto.
     - intros es IH Ro v s E R.
